@@ -23,7 +23,7 @@ REPO = os.environ.get("VERIF_REPO", "/repo")
 PY = os.environ.get("VERIF_PYTHON", "/venv/bin/python")
 LEAN_DIR = os.path.join(VERIF, "lean")
 DRIVER = os.path.join(LEAN_DIR, ".lake", "build", "bin", "driver")
-EVID_DIR = os.path.join(VERIF, "evidence")
+EVID_DIR = os.environ.get("VERIF_EVIDENCE_DIR") or os.path.join(VERIF, "evidence")      # selftest runs write elsewhere
 REPLAY_DIR = os.path.join(EVID_DIR, "replays")
 STD_AXIOMS = {"propext", "Classical.choice", "Quot.sound"}
 TRUSTED_BASE = [
